@@ -359,9 +359,12 @@ def check_structural(res, ctx, rng):
     big = "p%d:%d" % (rng.randrange(1, 200), nblk * BLOCK + rng.randrange(0, 3000))
     cfg = {"fs": 8 << 20, "sync": 0, "bps": 0, "idx": rng.choice([1, 2, 3]), "io": 0, "shards": 4}
     cfgs = engine.open_line("w", cfg).split(" ", 2)[2]
-    setup = [engine.open_line("orig", cfg), "put 6b x6f6c64", "put 6b " + big, "put 78 p3:300", "close"]
+    # a second multi-block record whose LAST chunk is longer than that of the first one (a block that starts with it, copied
+    # over the block that starts with the other's, yields a payload LONGER than its header declares)
+    big2 = "p%d:%d" % (rng.randrange(1, 200), core.val_len(big) + 2000)
+    setup = [engine.open_line("orig", cfg), "put 6b x6f6c64", "put 6b " + big, "put 6c " + big2, "put 78 p3:300", "close"]
     hist = {b"k": {core.fmt_val(b"old"), core.fmt_val(core.val_bytes(big))}, b"x": {core.fmt_val(core.val_bytes("p3:300"))},
-            b"y": {core.fmt_val(core.val_bytes("p4:300"))}}
+            b"y": {core.fmt_val(core.val_bytes("p4:300"))}, b"l": {core.fmt_val(core.val_bytes(big2))}}
     # older-file variant: the big record's file is rotated away (file-size limit below the record)
     cfg2 = dict(cfg, fs=nblk * BLOCK // 2)
     setup2 = [engine.open_line("orig2", cfg2), "put 6b x6f6c64", "put 6b " + big, "put 78 p3:300", "put 79 p4:300", "close"]
@@ -374,9 +377,12 @@ def check_structural(res, ctx, rng):
         cases.append(("missing-block", "orig", cfgs, ["cutout w 000000000.data %d %d" % (b * BLOCK, BLOCK)]))
     for b in range(1, nblk - 1):
         cases.append(("swapped-full-chunks", "orig", cfgs, ["swapblk w 000000000.data %d %d %d" % (b * BLOCK, (b + 1) * BLOCK, BLOCK)]))
-    nb = nblk + 1
+    nb = 2 * nblk + 1
     pairs = [(x, y) for x in range(nb) for y in range(nb) if x != y]
     rng.shuffle(pairs)
+    # the pair "block that starts with the last chunk of the second record over the block that starts with the last chunk of
+    # the first" always takes part
+    pairs = [(2 * nblk, nblk)] + [p for p in pairs if p != (2 * nblk, nblk)]
     for x, y in pairs[:6]:
         cases.append(("block-copied", "orig", cfgs, ["cpblk w 000000000.data %d %d %d" % (x * BLOCK, y * BLOCK, BLOCK)]))
     ops = setup + setup2
@@ -387,8 +393,8 @@ def check_structural(res, ctx, rng):
         ops += seg
     # the same kinds of damage while the database is OPEN: the file was validated by the scan at Open, later reads go through the
     # position-based read path only
-    for x, y in pairs[:6]:
-        seg = ["cpdir orig w", "open w " + cfgs, "cpblk w 000000000.data %d %d %d" % (x * BLOCK, y * BLOCK, BLOCK), "get 6b", "dump", "fold", "close",
+    for x, y in pairs[:(24 if ctx.quick else 200)]:
+        seg = ["cpdir orig w", "open w " + cfgs, "cpblk w 000000000.data %d %d %d" % (x * BLOCK, y * BLOCK, BLOCK), "get 6b", "get 6c", "dump", "fold", "close",
                "rmdir w"]
         spans.append((len(ops), len(ops) + len(seg), "block-copied/while-open"))
         ops += seg
